@@ -285,8 +285,8 @@ static iwrc _fsm_set_bit_status_lw(
   if (bend < offset_bits) { // overflow
     return IW_ERROR_OUT_OF_BOUNDS;
   }
-  assert(fsm->bmlen * 8 >= offset_bits + length_bits);
-  if (fsm->bmlen * 8 < offset_bits + length_bits) {
+  if (fsm->bmlen * 8 < offset_bits + length_bits) { // reachable with caller-supplied ranges (deallocate, reallocate,
+    // check_allocation_status): refused here; an assert on the same condition aborted debug builds instead
     return IWFS_ERROR_FSM_SEGMENTATION;
   }
   if (fsm->mmap_all) {
